@@ -34,11 +34,11 @@ TIERS = {
     'quick': {'shards': 8, 'shards_alt': 6, 'random': 6600, 'random_alt': 240, 'timeout': 900, 'min_cases': 3000,
               'max_timeouts': 3,
               'require_branches': ['speed-vanishes-inside', 'collinear:dyadic', 'collinear:nondyadic', 'cubic:cusp',
-                                   'config:noscipy', 'config:scipy', 'arc:eccentric', 'quad:nearly-straight', 'path:edited']},
+                                   'config:noscipy', 'config:scipy', 'arc:eccentric', 'quad:nearly-straight', 'path:edited', 'cubic:hairpin', 'path:loop-segment']},
     'thorough': {'shards': 10, 'shards_alt': 4, 'random': 300000, 'random_alt': 12000, 'timeout': 3400,
                  'min_cases': 100000, 'max_timeouts': 20,
                  'require_branches': ['speed-vanishes-inside', 'collinear:dyadic', 'collinear:nondyadic', 'cubic:cusp',
-                                      'config:noscipy', 'config:scipy', 'arc:eccentric', 'quad:nearly-straight', 'path:edited']},
+                                      'config:noscipy', 'config:scipy', 'arc:eccentric', 'quad:nearly-straight', 'path:edited', 'cubic:hairpin', 'path:loop-segment']},
 }
 CASE_TIMEOUT = 40
 EPS = gen.EPS
@@ -319,6 +319,14 @@ def _gen_seg(rng, scale_exp):
         a, b, c = p(), p(), p()
         pts = rng.choice([[a, a, b, c], [a, b, c, c], [a, b, b, c], [a, b, c, a], [a, a, b, b], [a, b, b, a]])
         return out('C', pts), ['cubic:repeated']
+    if k < 0.745:
+        # hairpin / near-cusp: the cusp family below with d1 slightly off, so the speed has a deep but non-zero
+        # interior minimum (sqrt of a quartic with complex roots next to the real axis: hard for fixed-order rules)
+        a, w, v = p(), p(), p()
+        d0, d2 = w, v
+        d1 = -(d0 + d2) / 2 * (1 + rng.choice([-1, 1]) * 10.0 ** rng.uniform(-2.5, -1)) + \
+            1j * (d0 - d2) * rng.choice([0, 0, 10.0 ** rng.uniform(-3, -1.5)])
+        return out('C', [a, a + d0, a + d0 + d1, a + d0 + d1 + d2]), ['cubic:hairpin']
     if k < 0.79:
         # cusp: B'(t*) = 0 for t* = 1/2  <=>  d0 - 2 d1 + d2 ... use the classic  P0, P1, P0+ (P1-P0) rotated...
         a = p()
@@ -352,7 +360,7 @@ def cases(ctx):
             t = rng.uniform(0.05, 0.95)
             a, b = sorted([rng.uniform(0, 1), rng.uniform(0, 1)])
             iv = [[0, 1], [0, t], [t, 1], [t, t], [a, b]]
-            if 'cubic:cusp' in cls:
+            if 'cubic:cusp' in cls or 'cubic:hairpin' in cls:
                 iv.append([0.3, 0.7])
             if nosci:
                 iv = iv[:3] + iv[5:]
@@ -362,6 +370,14 @@ def cases(ctx):
             specs = gen.rand_path_specs(rng, kinds, 'half' if nosci else rng.choice(['rand', 'int']))
             if any(s[0] == 'A' and s[1] == s[-1] for s in specs):
                 continue
+            if rng.random() < 0.25:
+                # a curved segment that ends where it starts (a loop): zero chord, positive length
+                j = rng.randrange(len(specs))
+                at = specs[j][1]
+                c1 = [at[0] + rng.uniform(5, 60), at[1] + rng.uniform(5, 60)]
+                c2 = [at[0] - rng.uniform(5, 60), at[1] + rng.uniform(5, 60)]
+                loop = ['C', at, c1, c2, at] if rng.random() < 0.6 else ['Q', at, c1, at]
+                specs.insert(j, loop)
             yield {'kind': 'path', 'segs': specs, 'T': sorted([rng.uniform(0, 1), rng.uniform(0, 1)]),
                    'cls': ['path', 'config:' + ctx.config]}
 
@@ -369,7 +385,7 @@ def cases(ctx):
 def run_case(ctx, case):
     ctx.branch('config:' + ctx.config)
     for c in case['cls']:
-        if c in ('collinear:dyadic', 'collinear:nondyadic', 'cubic:cusp', 'arc:eccentric', 'quad:nearly-straight'):
+        if c in ('collinear:dyadic', 'collinear:nondyadic', 'cubic:cusp', 'arc:eccentric', 'quad:nearly-straight', 'cubic:hairpin'):
             ctx.branch(c)
     if case['kind'] == 'seg':
         s = gen.seg(case['seg'])
@@ -389,6 +405,8 @@ def run_case(ctx, case):
                               {'whole': float(whole), 'left': float(left), 'right': float(right), 'tol': tol})
     else:
         p = gen.path(case['segs'])
+        if any(sp[0] in 'QC' and sp[1] == sp[-1] for sp in case['segs']):
+            ctx.branch('path:loop-segment')
         p.length()
         T0, T1 = case['T']
         p.length(T0, T1)
